@@ -22,7 +22,7 @@ func (fx *Fx) entryVars() map[string]Val {
 func newFx(p *Prog, fn *ssa.Function, ct *Contract) *Fx {
 	fx := &Fx{P: p, Fn: fn, C: ct, Name: fnName(fn), Loops: map[*ssa.BasicBlock]*LoopInfo{},
 		ipdom: map[*ssa.Function]map[*ssa.BasicBlock]*ssa.BasicBlock{}, loopsOf: map[*ssa.Function]map[*ssa.BasicBlock]*LoopInfo{},
-		siteCnt: map[string]int{}, Havocked: map[string]bool{}, Trusted: map[string]bool{}, UsedSpec: map[string]bool{}, LemmasUsed: map[string]bool{}, KeyFacts: map[*Term]bool{}, ConstTables: map[string]bool{},
+		siteCnt: map[string]int{}, Havocked: map[string]bool{}, Trusted: map[string]bool{}, UsedSpec: map[string]bool{}, LemmasUsed: map[string]bool{}, KeyFacts: map[*Term]bool{}, autoAnns: map[*LoopInfo]*LoopAnn{}, AutoLoops: map[string]int{}, ConstTables: map[string]bool{},
 		loopCtxs: map[*LoopInfo]*loopCtx{}}
 	if ct != nil {
 		fx.Sweep = ct.Sweep
